@@ -68,7 +68,16 @@ def gen_opts(rng: random.Random) -> dict[str, Any]:
 def opts_argv(rng: random.Random, o: dict[str, Any], auto: bool = False) -> list[str]:
     items: list[list[str]] = []
     if o["width"] != 88 or rng.random() < 0.3:
-        items.append([rng.choice(["-w", "--width"]), str(o["width"])] if rng.random() < 0.8 else [f"--width={o['width']}"])
+        r = rng.random()
+        if r < 0.65:
+            items.append([rng.choice(["-w", "--width"]), str(o["width"])])
+        elif r < 0.8:
+            items.append([f"--width={o['width']}"])
+        elif r < 0.9 and o["width"] >= 0:
+            items.append([f"-w{o['width']}"])  # glued short form
+        else:
+            # given twice: the last one wins
+            items.append(["--width", str(rng.choice([33, 120])), "-w", str(o["width"])])
     for name, short in (("plaintext", "-p"), ("semantic", "-s"), ("cleanups", "-c"), ("smartquotes", None), ("ellipses", None)):
         if auto and name != "plaintext":
             # --auto implies these; sometimes also spell them out (must change nothing)
@@ -78,7 +87,15 @@ def opts_argv(rng: random.Random, o: dict[str, Any], auto: bool = False) -> list
         if o[name]:
             items.append([short if short and rng.random() < 0.5 else "--" + name])
     if o["list_spacing"] != "preserve" or rng.random() < 0.2:
-        items.append(["--list-spacing", o["list_spacing"]] if rng.random() < 0.7 else [f"--list-spacing={o['list_spacing']}"])
+        r = rng.random()
+        if r < 0.6:
+            items.append(["--list-spacing", o["list_spacing"]])
+        elif r < 0.85:
+            items.append([f"--list-spacing={o['list_spacing']}"])
+        else:
+            items.append(["--list-spacing", rng.choice(corpus.LIST_SPACINGS), "--list-spacing", o["list_spacing"]])
+    # (argparse keeps a repeated option's values together only if the pair is not split, so
+    # shuffle whole items)
     rng.shuffle(items)
     return [x for it in items for x in it]
 
@@ -136,7 +153,8 @@ def gen_invocation(rng: random.Random, files_now: list[str], forced: tuple[str, 
         return [x for p in parts for x in p]
 
     if form == "stdout":
-        inv["argv"] = place(["-o", "-"] if rng.random() < 0.3 else [], [f1])
+        # (--nobackup without --inplace has no effect)
+        inv["argv"] = place((["-o", "-"] if rng.random() < 0.3 else []) + (["--nobackup"] if rng.random() < 0.15 else []), [f1])
         inv["files"] = [f1]
     elif form in ("inplace", "inplace_nobackup"):
         flags = [rng.choice(["-i", "--inplace"])] + (["--nobackup"] if form.endswith("nobackup") else [])
@@ -147,7 +165,11 @@ def gen_invocation(rng: random.Random, files_now: list[str], forced: tuple[str, 
         fs = [f1] if (rng.random() < 0.6 and not force_several) else several
         if forced is not None and not force_several:
             fs = [f1]
-        inv["argv"] = place(["--auto"], fs, auto=True)
+        aflags = ["--auto"]
+        if rng.random() < 0.2:
+            aflags += rng.sample(["--inplace", "--nobackup", "-i"], rng.randint(1, 2))  # implied anyway
+            rng.shuffle(aflags)
+        inv["argv"] = place(aflags, fs, auto=True)
         inv["files"] = fs
     elif form == "stdin_stdout":
         inv["argv"] = place([], ["-"])
@@ -170,6 +192,9 @@ def gen_invocation(rng: random.Random, files_now: list[str], forced: tuple[str, 
         arg = rng.choice([".", "docs", "docs/sub"]) if form == "dir" else rng.choice(["*.md", "**/*.md", "docs/*.md"])
         extra = [f1] if rng.random() < 0.3 else []
         flags = {"stdout": [], "inplace": ["-i"], "inplace_nobackup": ["-i", "--nobackup"], "auto": ["--auto"]}[sub]
+        if form == "dir" and rng.random() < 0.2:
+            flags = flags + ["--extend-include", "*.txt"]
+            inv["extend_include"] = ["*.txt"]
         args = [arg] + extra
         rng.shuffle(args)
         inv["argv"] = place(flags, args, auto=(sub == "auto"))
@@ -352,9 +377,9 @@ def eff_opts(inv: dict[str, Any], auto: bool) -> dict[str, Any]:
     return o
 
 
-def md_files_under(M: dict[str, bytes], d: str) -> list[str]:
+def md_files_under(M: dict[str, bytes], d: str, extra_ext: tuple[str, ...] = ()) -> list[str]:
     pre = "" if d in (".", "") else d.rstrip("/") + "/"
-    return [p for p in M if p.startswith(pre) and p.endswith(".md")]
+    return [p for p in M if p.startswith(pre) and p.endswith((".md",) + extra_ext)]
 
 
 def glob_model(M: dict[str, bytes], pat: str) -> list[str]:
@@ -453,7 +478,7 @@ def predict(model: Model, inv: dict[str, Any], M: dict[str, bytes]) -> Pred:
             elif any(c in a for c in "*?["):
                 found.update(glob_model(M, a))
             elif is_dir(a):
-                found.update(md_files_under(M, a))
+                found.update(md_files_under(M, a, (".txt",) if inv.get("extend_include") else ()))
             else:
                 p.exit = "nonzero"  # resolver: path not found -> FileNotFoundError before anything is formatted
                 p.stdout = None
